@@ -613,3 +613,242 @@ Print Assumptions runs_perm.
 Print Assumptions gseq_stream_perm.
 Print Assumptions runs_prefix_sound.
 Print Assumptions Runs_RunsP.
+
+(* ====================================================================================================
+   The protocol kernel of one DisjO node (ChanKernel.v): safety over all schedules, progress, delivery.
+   ==================================================================================================== *)
+From GMK Require Import ChanKernel.
+
+Lemma count_run_app ks m : count_run (ks ++ [KRun m]) = S (count_run ks).
+Proof. unfold count_run. rewrite filter_app, app_length. simpl. lia. Qed.
+
+Lemma remaining_app ks m : remaining (ks ++ [KRun m]) = remaining ks + m.
+Proof. induction ks as [|[n|] ks IH]; simpl; [lia| |]; rewrite ?IH; lia. Qed.
+
+Lemma count_run_set_run ks : forall j m n, nth_error ks j = Some (KRun m) ->
+  count_run (set_nth ks j (KRun n)) = count_run ks.
+Proof.
+  induction ks as [|k ks IH]; intros [|j] m n H; simpl in H; try discriminate.
+  - inversion H; subst. reflexivity.
+  - unfold count_run in *. simpl. destruct k; simpl; rewrite (IH j m n H); reflexivity.
+Qed.
+
+Lemma count_run_set_done ks : forall j m, nth_error ks j = Some (KRun m) ->
+  S (count_run (set_nth ks j KDone)) = count_run ks.
+Proof.
+  induction ks as [|k ks IH]; intros [|j] m H; simpl in H; try discriminate.
+  - inversion H; subst. reflexivity.
+  - unfold count_run in *. simpl. destruct k; simpl; rewrite <- (IH j m H); reflexivity.
+Qed.
+
+Lemma remaining_set_send ks : forall j n, nth_error ks j = Some (KRun (S n)) ->
+  S (remaining (set_nth ks j (KRun n))) = remaining ks.
+Proof.
+  induction ks as [|k ks IH]; intros [|j] n H; simpl in H; try discriminate.
+  - inversion H; subst. simpl. reflexivity.
+  - simpl. destruct k; rewrite <- (IH j n H); lia.
+Qed.
+
+Lemma remaining_set_done ks : forall j, nth_error ks j = Some (KRun 0) ->
+  remaining (set_nth ks j KDone) = remaining ks.
+Proof.
+  induction ks as [|k ks IH]; intros [|j] H; simpl in H; try discriminate.
+  - inversion H; subst. simpl. reflexivity.
+  - simpl. destruct k; rewrite (IH j H); reflexivity.
+Qed.
+
+Lemma count_run_pos ks j m : nth_error ks j = Some (KRun m) -> 1 <= count_run ks.
+Proof.
+  revert j. induction ks as [|k ks IH]; intros [|j] H; simpl in H; try discriminate.
+  - inversion H; subst. unfold count_run. simpl. lia.
+  - unfold count_run in *. simpl. destruct k; simpl; specialize (IH j H); lia.
+Qed.
+
+Lemma count_run_zero ks : count_run ks = 0 -> Forall (fun k => k = KDone) ks /\ remaining ks = 0.
+Proof.
+  induction ks as [|k ks IH]; intros H; [split; [constructor|reflexivity]|].
+  unfold count_run in *. destruct k; simpl in H; [discriminate|].
+  destruct (IH H) as [F R]. split; [constructor; [reflexivity|exact F]|exact R].
+Qed.
+
+Lemma count_run_witness ks : 1 <= count_run ks -> exists j m, nth_error ks j = Some (KRun m).
+Proof.
+  induction ks as [|k ks IH]; intros H; [unfold count_run in H; simpl in H; lia|].
+  destruct k as [m|].
+  - exists 0, m. reflexivity.
+  - unfold count_run in *. simpl in H. destruct (IH H) as [j [m Hj]]. exists (S j), m. exact Hj.
+Qed.
+
+Record KInv (ms : list nat) (s : kst) : Prop := mkKInv {
+  ki_bad : bad s = false;
+  ki_wg : wg s = (Z.of_nat (count_run (kids s)) + (if added s then 1 else 0))%Z;
+  ki_closed : closed s = cdone s;
+  ki_closed_ret : closed s = true -> pc s = PRet;
+  ki_ret : pc s = PRet -> count_run (kids s) = 0 /\ todo s = [] /\ added s = false;
+  ki_wait : pc s = PWait -> todo s = [] /\ added s = false;
+  ki_added : added s = true -> pc s = PLoop /\ todo s <> [];
+  ki_sum : delivered s + total (todo s) + remaining (kids s) = total ms
+}.
+
+Lemma kinv_init ms : KInv ms (kinit ms).
+Proof.
+  constructor; simpl; try reflexivity; try discriminate; try lia.
+Qed.
+
+Lemma kinv_step ms s l s' : KInv ms s -> kstep s l = Some s' -> KInv ms s'.
+Proof.
+  intros [Ib Iw Ic Icr Ir Iwt Ia Is] H. destruct l as [| | | |j|j|]; simpl in H.
+  - (* Add *)
+    destruct (pc s) eqn:Ep; try discriminate. destruct (todo s) as [|m r] eqn:Et; try discriminate.
+    destruct (added s) eqn:Ea; try discriminate. inversion H; subst; clear H. simpl in Iw.
+    apply mkKInv; simpl.
+    + exact Ib.
+    + rewrite Iw. lia.
+    + exact Ic.
+    + exact Icr.
+    + discriminate.
+    + discriminate.
+    + intros _. split; [reflexivity|discriminate].
+    + exact Is.
+  - (* Go *)
+    destruct (pc s) eqn:Ep; try discriminate. destruct (todo s) as [|m r] eqn:Et; try discriminate.
+    destruct (added s) eqn:Ea; try discriminate. inversion H; subst; clear H. simpl in Iw.
+    change (total (m :: r)) with (m + total r) in Is.
+    apply mkKInv; simpl.
+    + exact Ib.
+    + rewrite Iw, count_run_app. lia.
+    + exact Ic.
+    + exact Icr.
+    + discriminate.
+    + discriminate.
+    + discriminate.
+    + rewrite remaining_app. lia.
+  - (* LoopEnd *)
+    destruct (pc s) eqn:Ep; try discriminate. destruct (todo s) as [|m r] eqn:Et; try discriminate.
+    inversion H; subst; clear H.
+    assert (Ea : added s = false).
+    { destruct (added s) eqn:Ea; [|reflexivity]. destruct (Ia eq_refl) as [_ N]. congruence. }
+    apply mkKInv; simpl.
+    + exact Ib.
+    + exact Iw.
+    + exact Ic.
+    + intros Hc. specialize (Icr Hc). discriminate.
+    + discriminate.
+    + intros _. split; [reflexivity|exact Ea].
+    + rewrite Ea. discriminate.
+    + exact Is.
+  - (* Wait *)
+    destruct (pc s) eqn:Ep; try discriminate. destruct (Z.eqb_spec (wg s) 0) as [E0|]; [|discriminate].
+    inversion H; subst; clear H. destruct (Iwt eq_refl) as [Et Ea].
+    apply mkKInv; simpl.
+    + exact Ib.
+    + exact Iw.
+    + exact Ic.
+    + intros _. reflexivity.
+    + intros _. rewrite Iw, Ea in E0. split; [lia|]. split; [exact Et|exact Ea].
+    + discriminate.
+    + rewrite Ea. discriminate.
+    + exact Is.
+  - (* Send *)
+    destruct (nth_error (kids s) j) as [[[|n]|]|] eqn:En; try discriminate. inversion H; subst; clear H.
+    pose proof (count_run_pos _ _ _ En) as Hpos.
+    assert (Ecl : closed s = false).
+    { destruct (closed s) eqn:Ecl; [|reflexivity]. destruct (Ir (Icr eq_refl)) as [Z0 _]. lia. }
+    apply mkKInv; simpl.
+    + rewrite Ib, Ecl. reflexivity.
+    + rewrite (count_run_set_run _ _ _ n En). exact Iw.
+    + exact Ic.
+    + exact Icr.
+    + intros Hp. destruct (Ir Hp) as [Z0 _]. lia.
+    + exact Iwt.
+    + exact Ia.
+    + rewrite Ecl. rewrite <- (remaining_set_send _ _ _ En) in Is. lia.
+  - (* Done *)
+    destruct (nth_error (kids s) j) as [[[|n]|]|] eqn:En; try discriminate. inversion H; subst; clear H.
+    pose proof (count_run_pos _ _ _ En) as Hpos. pose proof (count_run_set_done _ _ _ En) as Hc.
+    apply mkKInv; simpl.
+    + rewrite Ib. simpl. apply Z.ltb_ge. rewrite Iw. destruct (added s); lia.
+    + rewrite Iw. rewrite <- Hc. lia.
+    + exact Ic.
+    + exact Icr.
+    + intros Hp. destruct (Ir Hp) as [Z0 _]. lia.
+    + exact Iwt.
+    + exact Ia.
+    + rewrite (remaining_set_done _ _ En). exact Is.
+  - (* Close *)
+    destruct (pc s) eqn:Ep; try discriminate. destruct (cdone s) eqn:Ed; [discriminate|].
+    inversion H; subst; clear H.
+    apply mkKInv; simpl.
+    + rewrite Ib, Ic. reflexivity.
+    + exact Iw.
+    + reflexivity.
+    + intros _. reflexivity.
+    + exact Ir.
+    + discriminate.
+    + exact Ia.
+    + exact Is.
+Qed.
+
+Theorem kernel_inv : forall ms ls s, krun (kinit ms) ls = Some s -> KInv ms s.
+Proof.
+  intros ms ls. assert (G : forall s0 s, KInv ms s0 -> krun s0 ls = Some s -> KInv ms s).
+  { induction ls as [|l r IH]; intros s0 s I H; simpl in H.
+    - inversion H; subst. exact I.
+    - destruct (kstep s0 l) as [s1|] eqn:E; [|discriminate]. eapply IH; [eapply kinv_step; eauto|exact H]. }
+  intros s. apply G. apply kinv_init.
+Qed.
+
+(* safety, under every schedule: no panic (no send on a closed channel, no double close, no negative counter); the
+   counter is the number of running children (plus one between Add and go); the channel is closed only by the creator,
+   only after the goal returned, i.e. after every writer has returned - and then every answer has been delivered *)
+Theorem kernel_safe : forall ms ls s, krun (kinit ms) ls = Some s ->
+  bad s = false /\ (0 <= wg s)%Z /\
+  (pc s = PRet -> Forall (fun k => k = KDone) (kids s) /\ todo s = []) /\
+  (closed s = true -> pc s = PRet /\ Forall (fun k => k = KDone) (kids s) /\ todo s = [] /\
+                      delivered s = total ms).
+Proof.
+  intros ms ls s H. destruct (kernel_inv _ _ _ H) as [Ib Iw Ic Icr Ir Iwt Ia Is].
+  split; [exact Ib|]. split; [rewrite Iw; destruct (added s); lia|]. split.
+  - intros Hp. destruct (Ir Hp) as [Z0 [Et _]]. split; [apply (count_run_zero _ Z0)|exact Et].
+  - intros Hc. pose proof (Icr Hc) as Hp. destruct (Ir Hp) as [Z0 [Et _]].
+    destruct (count_run_zero _ Z0) as [F R]. split; [exact Hp|]. split; [exact F|]. split; [exact Et|].
+    rewrite Et, R in Is. simpl in Is. lia.
+Qed.
+
+(* progress: as long as the channel is not closed some step is enabled, whatever the schedule did so far; hence every
+   maximal schedule ends with the channel closed and all answers delivered *)
+Theorem kernel_progress : forall ms ls s, krun (kinit ms) ls = Some s -> closed s = false ->
+  exists l s', kstep s l = Some s'.
+Proof.
+  intros ms ls s H Hc. destruct (kernel_inv _ _ _ H) as [Ib Iw Ic Icr Ir Iwt Ia Is].
+  destruct (pc s) eqn:Ep.
+  - destruct (todo s) as [|m r] eqn:Et.
+    + exists LLoopEnd. simpl. rewrite Ep, Et. eauto.
+    + destruct (added s) eqn:Ea.
+      * exists LGo. simpl. rewrite Ep, Et, Ea. eauto.
+      * exists LAdd. simpl. rewrite Ep, Et, Ea. eauto.
+  - destruct (Z.eqb_spec (wg s) 0) as [E0|N0].
+    + exists LWait. simpl. rewrite Ep. destruct (Z.eqb_spec (wg s) 0); [eauto|contradiction].
+    + destruct (Iwt eq_refl) as [_ Ea]. rewrite Ea in Iw.
+      destruct (count_run_witness (kids s)) as [j [m Hj]]; [lia|].
+      destruct m as [|n].
+      * exists (LDone j). simpl. rewrite Hj. eauto.
+      * exists (LSend j). simpl. rewrite Hj. eauto.
+  - exists LClose. simpl. rewrite Ep. rewrite <- Ic, Hc. eauto.
+Qed.
+
+(* Add inside the new goroutine instead of before `go`: one child, the parent's Wait returns before the child runs,
+   the creator closes, the child sends on the closed channel *)
+Theorem kernel_refuted_add_in_child : exists s,
+  krun_add_in_child (kinit [1]) [LGo; LLoopEnd; LWait; LClose; LSend 0] = Some s /\ bad s = true.
+Proof. eexists. split; reflexivity. Qed.
+
+(* non-vacuity: a complete schedule of two children with 2 and 1 answers *)
+Lemma kernel_example : exists s,
+  krun (kinit [2; 1]) [LAdd; LGo; LSend 0; LAdd; LGo; LLoopEnd; LSend 1; LDone 1; LSend 0; LDone 0; LWait; LClose] = Some s /\
+  closed s = true /\ delivered s = 3 /\ bad s = false /\ wg s = 0%Z.
+Proof. eexists. repeat split; reflexivity. Qed.
+
+Print Assumptions kernel_safe.
+Print Assumptions kernel_progress.
+Print Assumptions kernel_refuted_add_in_child.
